@@ -218,7 +218,12 @@ def _insert_propagate(body, names, log):
                 break
             j += 1
         if j >= len(body) or body[j] != ";":
-            # call sits inside a for(...) header or condition; put propagate after the enclosing ')' is not safe
+            # the call is an argument inside a larger expression: fine when that expression is a return statement (the flag is set and the function
+            # returns right away); anything else cannot be rendered
+            stmt_start = max(body.rfind(";", 0, m.start()), body.rfind("{", 0, m.start()), body.rfind("}", 0, m.start())) + 1
+            if re.match(r"\s*return\b", body[stmt_start:m.start()]):
+                pos = m.end()
+                continue
             raise ExtractionBroken("cannot place VERIF_PROPAGATE after call at: " + body[m.start():m.start() + 50])
         body = body[:j + 1] + " VERIF_PROPAGATE;" + body[j + 1:]
         pos = j + 1
